@@ -33,11 +33,14 @@ MIXES = {
     "rel_cre_plain": ([R("release", "1", "s1", "plain"), R("create", "1")], [R("", "1", "s1")]),
     # two recharges of one subscriber for different rating groups (for a recharge the session field names the rating group)
     "rech_rech": ([R("recharge", "1", "1"), R("recharge", "1", "2")], [R("", "1", "s1")]),
+    # a recharge whose notification makes the consumer send an update at once, from inside its notification handler
+    "rech_reauth": ([R("recharge", "1", "1", "reauth")], [R("", "1", "s1")]),
+    "rech_reauth_upd": ([R("recharge", "1", "1", "reauth"), R("update", "1", "s1")], [R("", "1", "s1")]),
     "rech_rech_upd": ([R("recharge", "1", "1"), R("recharge", "1", "2"), R("update", "1", "s1")], [R("", "1", "s1")]),
     "upd_rel_cre": ([R("update", "1", "s1"), R("release", "1", "s1"), R("create", "1")], [R("", "1", "s1")]),
 }
 QUICK = ["upd_upd", "upd_rel", "upd_rech", "cre_cre_same", "cre_cre_diff", "cre_upd", "rel_cre", "upd_upd_diff", "upd_rel_diff",
-         "rel_cre_plain", "rech_rech"]
+         "rel_cre_plain", "rech_rech", "rech_reauth"]
 
 
 def tla_req(r):
